@@ -408,6 +408,8 @@ class HostileWorld(MediaBase):
             cls = self.forged.pop(bytes(data), None)
             if cls is None:
                 return await orig(data, *a, **kw)
+            import time as _time
+            cpu0 = _time.thread_time()
             metered = self.meter_start()
             import tracemalloc
             mem0 = None
@@ -422,6 +424,9 @@ class HostileWorld(MediaBase):
                                    len(data), cls, label, self.COST_LIMIT, exc))
                 raise ForgedKilled()
             finally:
+                cpu = _time.thread_time() - cpu0
+                if cpu > getattr(self, "max_cpu", (0.0, None))[0]:
+                    self.max_cpu = (cpu, "%s/%d" % (cls, len(data)))
                 if mem0 is not None:
                     peak = tracemalloc.get_traced_memory()[1] - mem0
                     tracemalloc.stop()
@@ -1149,6 +1154,7 @@ class HostileWorld(MediaBase):
     def sample(self):
         return {"injected": self.injected, "max_cost_lines": getattr(self, "max_cost", 0),
                 "max_peak_bytes": getattr(self, "max_mem", 0),
+                "max_cpu_ms": [round(getattr(self, "max_cpu", (0.0, None))[0] * 1000, 1), getattr(self, "max_cpu", (0.0, None))[1]],
                 "classes": [o["cls"] for o in self.ops if o["op"] == "inject"][:8]}
 
 
